@@ -88,7 +88,15 @@ def _make(n, kinds, tuple_len=2):
             fields[f] = {"k1": Tok(f"{f}[k1]"), "k2": Tok(f"{f}[k2]")}
         else:
             fields[f] = Data(f)
+    if n.name == "Rational":
+        _rational_aliases(fields)
     return fields
+
+
+def _rational_aliases(fields):
+    # the lower-case properties of the legacy exact-quotient node
+    fields.update(numerator=fields["Numerator"], num=fields["Numerator"],
+                  denominator=fields["Denominator"], den=fields["Denominator"])
 
 
 def _slot(fields, f, s):
@@ -107,10 +115,11 @@ def _is_zero(it, nd, a, k):
     return (a[0] == 0) if isinstance(a[0], (int, float)) else False
 
 
-def judge(model, mapper: ClassInfo, n, fn, kinds, allow_zero_result=False):
+def judge(model, mapper: ClassInfo, n, fn, kinds, allow_zero_result=False,
+          extra_calls=None):
     """-> (witnesses, n_cases)"""
     poly = n.name == "Polynomial"
-    if n.legacy and not poly:
+    if n.legacy and not poly and n.name != "Rational":
         raise AnalysisError("legacy node class: not modelled by the judge")
     if len(fn.args.args) < 2:
         raise AnalysisError("handler signature")
@@ -199,6 +208,8 @@ def judge(model, mapper: ClassInfo, n, fn, kinds, allow_zero_result=False):
                 raise Raised(None, "TypeError")
             vals = dict(zip(names, a))
             vals.update(k)
+            if ref.n.name == "Rational":
+                _rational_aliases(vals)
             return Obj(ref.n.name, vals)
 
         def type_(it, node, a, k):
@@ -238,6 +249,7 @@ def judge(model, mapper: ClassInfo, n, fn, kinds, allow_zero_result=False):
             "chain": _chain, "itertools.chain": _chain,
             "chain.from_iterable": _chain_from,
             "itertools.chain.from_iterable": _chain_from,
+            "hash": lambda it, nd, a, k: 0,
         }
         for nm, nd_ in node_names.items():
             for spell in (nm, f"primitives.{nm}", f"p.{nm}", f"prim.{nm}"):
@@ -272,6 +284,8 @@ def judge(model, mapper: ClassInfo, n, fn, kinds, allow_zero_result=False):
                             kw_.update(self.eval(k_.value, env))
                     return build(f, args, kw_)
                 return Interp.call(self, e, env)
+        if extra_calls is not None:
+            calls_tab.update(extra_calls([mp]))
         it = _I(calls=calls_tab, attrs=attrs, resolve=resolve, globals_=glob,
                 max_steps=40000)
         label = (f"{n.name} with " + (
@@ -378,7 +392,7 @@ def judge(model, mapper: ClassInfo, n, fn, kinds, allow_zero_result=False):
 
 def _setup(model, mapper, n, fn, kinds, hooks, tuple_len=2):
     """-> (interp, mapper object, expr, fields, positions, extras, kw)"""
-    if n.legacy and n.name != "Polynomial":
+    if n.legacy and n.name not in ("Polynomial", "Rational"):
         raise AnalysisError("legacy node class: not modelled by the judge")
     poly = n.name == "Polynomial"
     if len(fn.args.args) < 2:
@@ -429,7 +443,8 @@ def _setup(model, mapper, n, fn, kinds, hooks, tuple_len=2):
     calls = {"is_zero": _is_zero, "primitives.is_zero": _is_zero,
              "chain": _chain, "itertools.chain": _chain,
              "chain.from_iterable": _chain_from,
-             "itertools.chain.from_iterable": _chain_from}
+             "itertools.chain.from_iterable": _chain_from,
+             "hash": lambda it_, nd_, a_, k_: 0}
     for nm, h in hooks.items():
         calls[f"{me}.{nm}" if nm else me] = h
     it = Interp(calls=calls, attrs=lambda it_, nd, b, a: Opaque(ast.unparse(nd)),
@@ -559,3 +574,73 @@ def judge_walk(model, mapper, n, fn, kinds):
                 wit.append(f"{label}: child {s!r} is visited {cnt} times")
                 break
     return wit, 2 * len(lens)
+
+
+def judge_interceptor(model, mapper, n, fn, kinds, lookup="subst_func"):
+    """A substitution handler: when the look-up (`self.subst_func(expr)`)
+    answers with a replacement, that very object is returned and never handed
+    to rec (replacements are not substituted again); when it answers None, the
+    handler behaves like an identity handler for the node (the contract of
+    `judge`).  Inherited handlers reached through IdentityMapper.map_x(self,
+    ...) / super().map_x(...) are interpreted as they are.
+    -> (witnesses, n_cases)"""
+    me = fn.args.args[0].arg
+    ident = model.cls("pymbolic.mapper:IdentityMapper")
+    inherited = {}
+    for k in model.mro(mapper):
+        if isinstance(k, ClassInfo) and k is not mapper:
+            for name, mem in k.members.items():
+                if mem.kind == "func" and name.startswith("map_"):
+                    inherited.setdefault(name, mem.node)
+    id_members = {name: mem.node for name, mem in ident.members.items()
+                  if mem.kind == "func" and name.startswith("map_")}
+
+    def extra_calls(it_holder, answer, seen_lookup):
+        def lk(it, node, a, k):
+            seen_lookup.append(a[0] if a else None)
+            return answer
+        tab = {f"{me}.{lookup}": lk}
+        for name, nd_ in id_members.items():
+            tab[f"IdentityMapper.{name}"] = (
+                lambda it, node, a, k, nd_=nd_: it.call_function(
+                    nd_, list(a), {"__kwargs__": dict(k)}))
+        for name, nd_ in inherited.items():
+            tab[f"super().{name}"] = (
+                lambda it, node, a, k, nd_=nd_: it.call_function(
+                    nd_, [it_holder[0]] + list(a), {"__kwargs__": dict(k)}))
+        return tab
+    wit = []
+    # found: the replacement itself comes back, untouched
+    R = Tok("<replacement>")
+    calls = []
+    seen = []
+    holder = [None]
+
+    def rec(it, node, a, k):
+        calls.append(a[0])
+        return a[0]
+    hooks = {"rec": rec, "": rec, "__call__": rec}
+    it, mp, expr, slots, extras, kw = _setup(model, mapper, n, fn, kinds, hooks)
+    holder[0] = mp
+    it.calls.update(extra_calls(holder, R, seen))
+    try:
+        res = it.call_function(fn, [mp, expr] + list(extras),
+                               {"__kwargs__": dict(kw)})
+        if res is not R:
+            wit.append(f"{n.name}, a replacement is found: the handler returns "
+                       f"{res!r}, not the replacement as it is")
+        if any(c is R for c in calls):
+            wit.append(f"{n.name}, a replacement is found: the replacement is "
+                       "handed to rec (substituted again)")
+        if not any(s is expr for s in seen):
+            wit.append(f"{n.name}: the look-up is not asked about the node "
+                       "itself")
+    except Raised as r:
+        wit.append(f"{n.name}, a replacement is found: raises at line "
+                   f"{getattr(r.node, 'lineno', '?')}")
+    except StepBound:
+        wit.append(f"{n.name}: does not terminate")
+    # not found: identity contract
+    w2, n2 = judge(model, mapper, n, fn, kinds,
+                   extra_calls=lambda holder_: extra_calls(holder_, None, []))
+    return wit + [f"{x} (no replacement found)" for x in w2], 1 + n2
